@@ -78,6 +78,11 @@ def run(ctx):
         r1 = [r for r in r1 if not r.get('fault_not_reached')]
         nf += sum(r['actions'].get('PackFailQ', 0) for r in r1)
         rr += r1
+    # ... and the removal of the Data.fs.old a previous pack left fails
+    r1 = S.replay_all(ctx, ff, 'file', c2, opts={'fault_k': 0, 'fault_target': 'old', 'sparse': False, 'pad': 0}, tag='pfold')
+    r1 = [r for r in r1 if not r.get('fault_not_reached')]
+    nfold = sum(r['actions'].get('PackFailQ', 0) for r in r1)
+    rr += r1
     cov = S.judge(ctx, rr, 'file', focus=lambda r: r['actions'].get('PackFailQ', 0) >= 1)
     # C. thread schedules: packer + committers + reader (+ second packer) on the real storage under the scheduler
     import random
@@ -155,7 +160,7 @@ def run(ctx):
         'evaluations': images + cov['behaviours'] + len(sres),
         'distinct_nontrivial': nontrivial + cov['nontrivial'] + during,
         'traces_validated_against_impl': len(traces) + cov['behaviours'] + len(good),
-        'pack_crash_images': images, 'pack_faults_injected': nf, 'fault_replays': cov,
+        'pack_crash_images': images, 'pack_faults_injected': nf, 'old_file_removal_failures': nfold, 'fault_replays': cov,
         'rule': 'A: pack-heavy behaviours of ZStorage run on a real FileStorage over the recording layer; after EVERY raw '
                 'operation issued during a pack (writes of .pack, removal of .old, rename data->.old, rename .pack->data, index '
                 'save) the whole directory is copied and reopened; the recovered storage must answer every query like the '
